@@ -18,7 +18,7 @@
      w_open              open(cache file, "wb")   - truncates in place as built
      w_write             write the next chunk (own file offset; holes if someone truncated meanwhile)
      w_close             close                    - (intended: os.replace(tmp, cache file))
-     w_cleanup           (intended, codegen) remove library bundles of earlier saves
+     w_cleanup           (intended, codegen) remove the libraries the replaced cache file pointed to
 
    File content.  A complete cache file is N equal cells; a cell carries the
    CONTENT it belongs to: [o |-> option set it was compiled for, b |-> the
@@ -39,198 +39,202 @@ CONSTANTS Procs,          \* e.g. {"p1","p2"}
           N,              \* chunks of the cache file
           NL,             \* number of shared libraries
           MaxCrashes,
-          Inits,          \* allowed initial disk states, subset of {"none","o1"}
+          Inits,          \* allowed initial disk states, subset of {"none","o1","trunc"}
+          Sequential,     \* TRUE: one call at a time (crash-point histories); FALSE: calls interleave
           AtomicWrite, CatchUnpickle, UniqueLibs, CatchLibError
 
 VARIABLES exists,   \* cache file exists
-          cells,    \* its content: sequence of cells (content records or "hole")
+          cells,    \* its content: sequence of cells (content records or holes)
           libs,     \* bundle -> library index -> [st |-> "absent"|"partial"|"ok", o |-> option set]
-          pc, rd, fdc, snap, lo, wk, tmp, gen,
+          loc,      \* per process: pc and the locals of the running call
+          gen,      \* per process: the library-bundle name its current/last save uses (a fresh name per save if UniqueLibs)
           crashes, last
-vars == <<exists, cells, libs, pc, rd, fdc, snap, lo, wk, tmp, gen, crashes, last>>
+vars == <<exists, cells, libs, loc, gen, crashes, last>>
 
 OptOf(p) == IF DiffOpts /\ p = "p2" THEN "o2" ELSE "o1"
 LibIds == 1..NL
-Bundles == IF UniqueLibs THEN {<<p, g>> : p \in Procs, g \in 0..1} \cup {<<"init", 0>>} ELSE {<<"shared", 0>>}
-MyBundle(p) == IF UniqueLibs THEN <<p, gen[p]>> ELSE <<"shared", 0>>
-Content(p) == [o |-> OptOf(p), b |-> IF Codegen THEN MyBundle(p) ELSE <<"-", 0>>]
+NoB == 0 - 1
+(* bundle names.  As built there is one fixed set of library paths (bundle 0).  With UniqueLibs every save
+   takes a FRESH name; a finite pool is enough because a name that nothing refers to any more (not the
+   cache file, not a reader that has unpickled it, not a pending cleanup, not a running writer) is as
+   good as new - files left under it by a crashed writer are litter nobody looks at. *)
+Bundles == IF UniqueLibs THEN 0..(3 * Cardinality(Procs) + 1) ELSE {0}
+MyBundle(p) == IF UniqueLibs THEN gen[p] ELSE 0
+Content(p) == [o |-> OptOf(p), b |-> IF Codegen THEN MyBundle(p) ELSE NoB]
 Absent == [st |-> "absent", o |-> "-"]
 NoLibs == [b \in Bundles |-> [i \in LibIds |-> Absent]]
-Hole == [o |-> "hole", b |-> <<"-", 0>>]
+Hole == [o |-> "hole", b |-> NoB]
 
 Complete(cs) == Len(cs) = N /\ \A i \in 1..N : cs[i] = cs[1] /\ cs[i].o # "hole"
 
+(* locals of a call:  rd = chunks read so far, fdc = content of the inode opened by r_open,
+   snap = unpickled content, lo = libraries loaded so far, wk = next chunk/library to write,
+   tmp = content of the private temp file (AtomicWrite) *)
+Idle == [pc |-> "idle", rd |-> <<>>, fdc |-> <<>>, snap |-> Hole, lo |-> <<>>, wk |-> 0, tmp |-> <<>>, old |-> NoB]
+Writing(p) == loc[p].pc \in {"w_link_a", "w_link_b", "w_open", "w_write", "w_close", "w_cleanup"}
+Referenced == {cells[i].b : i \in 1..Len(cells)} \cup {loc[p].snap.b : p \in Procs} \cup {loc[p].old : p \in Procs}
+              \cup {gen[p] : p \in {q \in Procs : Writing(q)}}
+              \cup UNION {{loc[p].fdc[i].b : i \in 1..Len(loc[p].fdc)} : p \in Procs}
+pc(p) == loc[p].pc
+
 InitDisk(k) ==
     IF k = "none" THEN exists = FALSE /\ cells = <<>> /\ libs = NoLibs
-    ELSE LET b0 == IF UniqueLibs THEN <<"init", 0>> ELSE <<"shared", 0>>
-             c0 == [o |-> "o1", b |-> IF Codegen THEN b0 ELSE <<"-", 0>>]
+    ELSE IF k = "trunc" THEN exists = TRUE /\ cells = <<[o |-> "o1", b |-> NoB]>> /\ libs = NoLibs   \* left behind by an older crash
+    ELSE LET b0 == 0
+             c0 == [o |-> "o1", b |-> IF Codegen THEN b0 ELSE NoB]
          IN  /\ exists = TRUE /\ cells = [i \in 1..N |-> c0]
              /\ libs = IF Codegen THEN [NoLibs EXCEPT ![b0] = [i \in LibIds |-> [st |-> "ok", o |-> "o1"]]] ELSE NoLibs
 
 Init == /\ \E k \in Inits : InitDisk(k)
-        /\ pc = [p \in Procs |-> "idle"]
-        /\ rd = [p \in Procs |-> <<>>]
-        /\ fdc = [p \in Procs |-> <<>>]
-        /\ snap = [p \in Procs |-> Hole]
-        /\ lo = [p \in Procs |-> <<>>]
-        /\ wk = [p \in Procs |-> 0]
-        /\ tmp = [p \in Procs |-> <<>>]
+        /\ loc = [p \in Procs |-> Idle]
         /\ gen = [p \in Procs |-> 0]
         /\ crashes = 0
         /\ last = [ev |-> "init"]
 
 -----------------------------------------------------------------------------
-Goto(p, l) == pc' = [pc EXCEPT ![p] = l]
+Set(p, r) == loc' = [loc EXCEPT ![p] = r]
 Ev(p, name, more) == last' = [ev |-> name, p |-> p] @@ more
 
 (* the call ends: result handed to the caller *)
 Finish(p, kind, vars_o, funs_o) ==
-    /\ Goto(p, "idle")
+    /\ Set(p, Idle)
     /\ last' = [ev |-> "finish", p |-> p, kind |-> kind, want |-> OptOf(p), vars |-> vars_o, funs |-> funs_o]
 
-(* a miss: compile locally, then start writing *)
-MissTarget == IF Codegen THEN "w_link_a" ELSE "w_open"
+(* a miss: compile locally (no shared state), then start writing *)
 BecomeWriter(p, why) ==
-    /\ Goto(p, MissTarget)
-    /\ wk' = [wk EXCEPT ![p] = 1]
-    /\ gen' = [gen EXCEPT ![p] = IF UniqueLibs /\ Codegen THEN 1 - gen[p] ELSE gen[p]]
+    /\ Set(p, [Idle EXCEPT !.pc = IF Codegen THEN "w_link_a" ELSE "w_open", !.wk = 1])
+    /\ gen' = [gen EXCEPT ![p] = IF UniqueLibs /\ Codegen THEN CHOOSE b \in Bundles : b \notin Referenced ELSE gen[p]]
     /\ Ev(p, "miss", [why |-> why])
 
 Start(p) ==
-    /\ pc[p] = "idle"
-    /\ Goto(p, "r_stat")
+    /\ pc(p) = "idle"
+    /\ Sequential => \A q \in Procs : pc(q) = "idle"
+    /\ Set(p, [Idle EXCEPT !.pc = "r_stat"])
     /\ Ev(p, "start", [opts |-> OptOf(p)])
-    /\ UNCHANGED <<exists, cells, libs, rd, fdc, snap, lo, wk, tmp, gen, crashes>>
+    /\ UNCHANGED <<exists, cells, libs, gen, crashes>>
 
 RStat(p) ==
-    /\ pc[p] = "r_stat"
+    /\ pc(p) = "r_stat"
     /\ IF exists
-       THEN Goto(p, "r_open") /\ Ev(p, "r_stat", [found |-> TRUE]) /\ UNCHANGED <<wk, gen>>
+       THEN Set(p, [Idle EXCEPT !.pc = "r_open"]) /\ Ev(p, "r_stat", [found |-> TRUE]) /\ UNCHANGED gen
        ELSE BecomeWriter(p, "no-file")
-    /\ UNCHANGED <<exists, cells, libs, rd, fdc, snap, lo, tmp, crashes>>
+    /\ UNCHANGED <<exists, cells, libs, crashes>>
 
 ROpen(p) ==
-    /\ pc[p] = "r_open"
-    /\ Goto(p, "r_read")
-    /\ rd' = [rd EXCEPT ![p] = <<>>]
-    /\ fdc' = [fdc EXCEPT ![p] = cells]        \* intended: the inode opened now never changes again
+    /\ pc(p) = "r_open"
+    /\ Set(p, [Idle EXCEPT !.pc = "r_read", !.fdc = IF AtomicWrite THEN cells ELSE <<>>])  \* intended: the inode opened now never changes again
     /\ Ev(p, "r_open", [len |-> Len(cells)])
-    /\ UNCHANGED <<exists, cells, libs, snap, lo, wk, tmp, gen, crashes>>
+    /\ UNCHANGED <<exists, cells, libs, gen, crashes>>
 
-Visible(p) == IF AtomicWrite THEN fdc[p] ELSE cells
+Visible(p) == IF AtomicWrite THEN loc[p].fdc ELSE cells
 
 (* read chunk Len(rd)+1; after the last chunk pickle.load returns (or fails), then version/options are checked *)
 RRead(p) ==
-    /\ pc[p] = "r_read"
-    /\ LET k    == Len(rd[p]) + 1
+    /\ pc(p) = "r_read"
+    /\ LET k    == Len(loc[p].rd) + 1
            src  == Visible(p)
            eof  == k > Len(src)
-           got  == IF eof THEN rd[p] ELSE Append(rd[p], src[k])
-           done == eof \/ Len(got) = N
+           got  == IF eof THEN loc[p].rd ELSE Append(loc[p].rd, src[k])
+           done == eof \/ Len(got) = N \/ got[Len(got)].o = "hole"     \* a run of zero bytes stops the unpickler at once
            ok   == ~eof /\ Complete(got)
        IN  IF ~done
-           THEN /\ rd' = [rd EXCEPT ![p] = got]
-                /\ Ev(p, "r_read", [k |-> k])
-                /\ UNCHANGED <<pc, snap, lo, wk, gen>>
-           ELSE /\ rd' = [rd EXCEPT ![p] = <<>>]
-                /\ IF ok
-                   THEN IF got[1].o # OptOf(p)
-                        THEN BecomeWriter(p, "options-differ") /\ UNCHANGED <<snap, lo>>
-                        ELSE IF Codegen
-                             THEN /\ Goto(p, "r_libs") /\ snap' = [snap EXCEPT ![p] = got[1]]
-                                  /\ lo' = [lo EXCEPT ![p] = <<>>]
-                                  /\ Ev(p, "r_read", [k |-> k]) /\ UNCHANGED <<wk, gen>>
-                             ELSE Finish(p, "hit", got[1].o, <<got[1].o>>) /\ UNCHANGED <<snap, lo, wk, gen>>
-                   ELSE IF CatchUnpickle
-                        THEN BecomeWriter(p, IF eof THEN "truncated" ELSE "garbled") /\ UNCHANGED <<snap, lo>>
-                        ELSE Finish(p, "raised", IF eof THEN "truncated" ELSE "garbled", <<>>) /\ UNCHANGED <<snap, lo, wk, gen>>
-    /\ UNCHANGED <<exists, cells, libs, fdc, tmp, crashes>>
+           THEN Set(p, [loc[p] EXCEPT !.rd = got]) /\ Ev(p, "r_read", [k |-> k]) /\ UNCHANGED gen
+           ELSE IF ok
+                THEN IF got[1].o # OptOf(p)
+                     THEN BecomeWriter(p, "options-differ")
+                     ELSE IF Codegen
+                          THEN /\ Set(p, [Idle EXCEPT !.pc = "r_libs", !.snap = got[1]])
+                               /\ Ev(p, "r_read", [k |-> k]) /\ UNCHANGED gen
+                          ELSE Finish(p, "hit", got[1].o, <<got[1].o>>) /\ UNCHANGED gen
+                ELSE IF CatchUnpickle
+                     THEN BecomeWriter(p, IF eof THEN "truncated" ELSE "garbled")
+                     ELSE Finish(p, "raised", IF eof THEN "truncated" ELSE "garbled", <<>>) /\ UNCHANGED gen
+    /\ UNCHANGED <<exists, cells, libs, crashes>>
 
 (* ca.external of library Len(lo)+1 of the bundle the cache file points to *)
 RLibs(p) ==
-    /\ pc[p] = "r_libs"
-    /\ LET i  == Len(lo[p]) + 1
-           l  == libs[snap[p].b][i]
-           ok == l.st = "ok"
-       IN  IF ok
+    /\ pc(p) = "r_libs"
+    /\ LET i  == Len(loc[p].lo) + 1
+           l  == libs[loc[p].snap.b][i]
+       IN  IF l.st = "ok"
            THEN IF i = NL
-                THEN Finish(p, "hit", snap[p].o, Append(lo[p], l.o)) /\ lo' = [lo EXCEPT ![p] = <<>>] /\ UNCHANGED <<wk, gen>>
-                ELSE lo' = [lo EXCEPT ![p] = Append(lo[p], l.o)] /\ Ev(p, "r_libs", [i |-> i]) /\ UNCHANGED <<pc, wk, gen>>
-           ELSE /\ lo' = [lo EXCEPT ![p] = <<>>]
-                /\ IF CatchLibError
-                   THEN BecomeWriter(p, "library-unloadable")
-                   ELSE Finish(p, "raised", IF l.st = "absent" THEN "library-missing" ELSE "library-partial", <<>>) /\ UNCHANGED <<wk, gen>>
-    /\ UNCHANGED <<exists, cells, libs, rd, fdc, snap, tmp, crashes>>
+                THEN Finish(p, "hit", loc[p].snap.o, Append(loc[p].lo, l.o)) /\ UNCHANGED gen
+                ELSE Set(p, [loc[p] EXCEPT !.lo = Append(@, l.o)]) /\ Ev(p, "r_libs", [i |-> i]) /\ UNCHANGED gen
+           ELSE IF CatchLibError
+                THEN BecomeWriter(p, "library-unloadable")
+                ELSE Finish(p, "raised", IF l.st = "absent" THEN "library-missing" ELSE "library-partial", <<>>) /\ UNCHANGED gen
+    /\ UNCHANGED <<exists, cells, libs, crashes>>
 
 -----------------------------------------------------------------------------
 (* writer *)
 WLinkA(p) ==     \* as built: ld unlinks the old library and starts writing the new one under the same name
-    /\ pc[p] = "w_link_a"
-    /\ IF UniqueLibs
-       THEN /\ libs' = [libs EXCEPT ![MyBundle(p)][wk[p]] = [st |-> "ok", o |-> OptOf(p)]]   \* linked elsewhere, renamed into a fresh name
-            /\ IF wk[p] = NL THEN Goto(p, "w_open") /\ wk' = [wk EXCEPT ![p] = 1]
-                             ELSE wk' = [wk EXCEPT ![p] = wk[p] + 1] /\ UNCHANGED pc
-       ELSE /\ libs' = [libs EXCEPT ![MyBundle(p)][wk[p]] = [st |-> "partial", o |-> OptOf(p)]]
-            /\ Goto(p, "w_link_b") /\ UNCHANGED wk
-    /\ Ev(p, "w_link_a", [i |-> wk[p]])
-    /\ UNCHANGED <<exists, cells, rd, fdc, snap, lo, tmp, gen, crashes>>
+    /\ pc(p) = "w_link_a"
+    /\ LET i == loc[p].wk
+       IN  IF UniqueLibs
+           THEN /\ libs' = [libs EXCEPT ![MyBundle(p)] =                                   \* linked elsewhere, renamed into a fresh name
+                              [j \in LibIds |-> IF j = i THEN [st |-> "ok", o |-> OptOf(p)] ELSE IF i = 1 THEN Absent ELSE @[j]]]
+                /\ Set(p, IF i = NL THEN [loc[p] EXCEPT !.pc = "w_open", !.wk = 1] ELSE [loc[p] EXCEPT !.wk = i + 1])
+           ELSE /\ libs' = [libs EXCEPT ![MyBundle(p)][i] = [st |-> "partial", o |-> OptOf(p)]]
+                /\ Set(p, [loc[p] EXCEPT !.pc = "w_link_b"])
+    /\ Ev(p, "w_link_a", [i |-> loc[p].wk])
+    /\ UNCHANGED <<exists, cells, gen, crashes>>
 
 WLinkB(p) ==
-    /\ pc[p] = "w_link_b"
-    /\ libs' = [libs EXCEPT ![MyBundle(p)][wk[p]] = [st |-> "ok", o |-> OptOf(p)]]
-    /\ IF wk[p] = NL THEN Goto(p, "w_open") /\ wk' = [wk EXCEPT ![p] = 1]
-                     ELSE Goto(p, "w_link_a") /\ wk' = [wk EXCEPT ![p] = wk[p] + 1]
-    /\ Ev(p, "w_link_b", [i |-> wk[p]])
-    /\ UNCHANGED <<exists, cells, rd, fdc, snap, lo, tmp, gen, crashes>>
+    /\ pc(p) = "w_link_b"
+    /\ LET i == loc[p].wk
+       IN  /\ libs' = [libs EXCEPT ![MyBundle(p)][i] = [st |-> "ok", o |-> OptOf(p)]]
+           /\ Set(p, IF i = NL THEN [loc[p] EXCEPT !.pc = "w_open", !.wk = 1]
+                               ELSE [loc[p] EXCEPT !.pc = "w_link_a", !.wk = i + 1])
+    /\ Ev(p, "w_link_b", [i |-> loc[p].wk])
+    /\ UNCHANGED <<exists, cells, gen, crashes>>
 
 WOpen(p) ==
-    /\ pc[p] = "w_open"
-    /\ Goto(p, "w_write")
-    /\ wk' = [wk EXCEPT ![p] = 1]
+    /\ pc(p) = "w_open"
+    /\ Set(p, [loc[p] EXCEPT !.pc = "w_write", !.wk = 1, !.tmp = <<>>])
     /\ IF AtomicWrite
-       THEN tmp' = [tmp EXCEPT ![p] = <<>>] /\ UNCHANGED <<exists, cells>>
-       ELSE exists' = TRUE /\ cells' = <<>> /\ UNCHANGED tmp             \* open(..., "wb") truncates the live file
+       THEN UNCHANGED <<exists, cells>>
+       ELSE exists' = TRUE /\ cells' = <<>>             \* open(..., "wb") truncates the live file
     /\ Ev(p, "w_open", <<>>)
-    /\ UNCHANGED <<libs, rd, fdc, snap, lo, gen, crashes>>
+    /\ UNCHANGED <<libs, gen, crashes>>
 
 Pad(cs, k) == [i \in 1..(IF Len(cs) >= k THEN Len(cs) ELSE k) |-> IF i <= Len(cs) THEN cs[i] ELSE Hole]
 
 WWrite(p) ==
-    /\ pc[p] = "w_write"
-    /\ LET k == wk[p]
-       IN  /\ IF AtomicWrite
-              THEN tmp' = [tmp EXCEPT ![p] = Append(tmp[p], Content(p))] /\ UNCHANGED cells
-              ELSE cells' = [Pad(cells, k) EXCEPT ![k] = Content(p)] /\ UNCHANGED tmp
-           /\ IF k = N THEN Goto(p, "w_close") /\ UNCHANGED wk
-                       ELSE wk' = [wk EXCEPT ![p] = k + 1] /\ UNCHANGED pc
+    /\ pc(p) = "w_write"
+    /\ LET k == loc[p].wk
+           l1 == IF AtomicWrite THEN [loc[p] EXCEPT !.tmp = Append(@, Content(p))] ELSE loc[p]
+       IN  /\ IF AtomicWrite THEN UNCHANGED cells
+              ELSE cells' = [Pad(cells, k) EXCEPT ![k] = Content(p)]
+           /\ Set(p, IF k = N THEN [l1 EXCEPT !.pc = "w_close"] ELSE [l1 EXCEPT !.wk = k + 1])
            /\ Ev(p, "w_write", [k |-> k])
-    /\ UNCHANGED <<exists, libs, rd, fdc, snap, lo, gen, crashes>>
+    /\ UNCHANGED <<exists, libs, gen, crashes>>
 
 WClose(p) ==
-    /\ pc[p] = "w_close"
+    /\ pc(p) = "w_close"
     /\ IF AtomicWrite
-       THEN exists' = TRUE /\ cells' = tmp[p]                           \* os.replace(tmp, cache file)
+       THEN exists' = TRUE /\ cells' = loc[p].tmp                           \* os.replace(tmp, cache file)
        ELSE UNCHANGED <<exists, cells>>
     /\ IF AtomicWrite /\ UniqueLibs /\ Codegen
-       THEN Goto(p, "w_cleanup") /\ Ev(p, "w_close", <<>>)
+       THEN /\ Set(p, [Idle EXCEPT !.pc = "w_cleanup",                 \* remember which libraries the replaced cache file pointed to
+                                   !.old = IF exists /\ Complete(cells) /\ cells[1].b # MyBundle(p) THEN cells[1].b ELSE NoB])
+            /\ Ev(p, "w_close", <<>>)
        ELSE Finish(p, "miss", OptOf(p), <<OptOf(p)>>)
-    /\ UNCHANGED <<libs, rd, fdc, snap, lo, wk, tmp, gen, crashes>>
+    /\ UNCHANGED <<libs, gen, crashes>>
 
-WCleanup(p) ==   \* remove the libraries of earlier saves
-    /\ pc[p] = "w_cleanup"
-    /\ libs' = [b \in Bundles |-> IF b = MyBundle(p) THEN libs[b] ELSE [i \in LibIds |-> Absent]]
+WCleanup(p) ==   \* remove the libraries that the cache file we replaced pointed to
+    /\ pc(p) = "w_cleanup"
+    /\ libs' = [b \in Bundles |-> IF b = loc[p].old THEN [i \in LibIds |-> Absent] ELSE libs[b]]
     /\ Finish(p, "miss", OptOf(p), <<OptOf(p)>>)
-    /\ UNCHANGED <<exists, cells, rd, fdc, snap, lo, wk, tmp, gen, crashes>>
+    /\ UNCHANGED <<exists, cells, gen, crashes>>
 
 (* the process dies wherever it is; whatever it wrote stays; a new process takes its place *)
 Crash(p) ==
-    /\ pc[p] # "idle"
+    /\ pc(p) # "idle"
     /\ crashes < MaxCrashes
     /\ crashes' = crashes + 1
-    /\ Goto(p, "idle")
-    /\ rd' = [rd EXCEPT ![p] = <<>>] /\ lo' = [lo EXCEPT ![p] = <<>>]
-    /\ Ev(p, "crash", [at |-> pc[p], k |-> wk[p]])
-    /\ UNCHANGED <<exists, cells, libs, fdc, snap, wk, tmp, gen>>
+    /\ Set(p, Idle)
+    /\ Ev(p, "crash", [at |-> pc(p), k |-> loc[p].wk])
+    /\ UNCHANGED <<exists, cells, libs, gen>>
 
 Step(p) == Start(p) \/ RStat(p) \/ ROpen(p) \/ RRead(p) \/ RLibs(p)
            \/ WLinkA(p) \/ WLinkB(p) \/ WOpen(p) \/ WWrite(p) \/ WClose(p) \/ WCleanup(p)
@@ -254,15 +258,11 @@ Recovers == []<>Intact
 
 TypeOK == /\ exists \in BOOLEAN
           /\ Len(cells) <= N
-          /\ \A p \in Procs : pc[p] \in {"idle", "r_stat", "r_open", "r_read", "r_libs", "w_link_a", "w_link_b",
+          /\ \A p \in Procs : pc(p) \in {"idle", "r_stat", "r_open", "r_read", "r_libs", "w_link_a", "w_link_b",
                                         "w_open", "w_write", "w_close", "w_cleanup"}
           /\ crashes \in 0..MaxCrashes
 
 -----------------------------------------------------------------------------
-Proj == [exists |-> exists, cells |-> cells, libs |-> libs, pc |-> pc, rd |-> rd, fdc |-> fdc, snap |-> snap,
-         lo |-> lo, wk |-> wk, tmp |-> tmp, gen |-> gen, crashes |-> crashes]
-View == Proj
-Log == PrintT(<<"TR", ToJson([src |-> [exists |-> exists, cells |-> cells, pc |-> pc, wk |-> wk, crashes |-> crashes, rd |-> rd, tmp |-> tmp, fdc |-> fdc],
-                              act |-> last',
-                              dst |-> [exists |-> exists', cells |-> cells', pc |-> pc', wk |-> wk', crashes |-> crashes', rd |-> rd', tmp |-> tmp', fdc |-> fdc']])>>)
+PJ == [exists |-> exists, cells |-> cells, libs |-> [b \in Bundles |-> libs[b]], loc |-> loc, gen |-> gen, crashes |-> crashes]
+Log == PrintT(<<"TR", ToJson([src |-> PJ, act |-> last', dst |-> PJ'])>>)
 =============================================================================
